@@ -95,7 +95,10 @@ func (t *Trie) BuildFailureLinks() {
 // Match returns true if the text contains any of the patterns in the trie.
 func (t *Trie) Match(text string) bool {
 	node := &t.root
-	for _, v := range text {
+	for i := 0; i < len(text); {
+		v, size := decodeRune(text, i)
+		i += size
+
 		idx := t.index(node.children, v)
 		for node != &t.root && idx < 0 {
 			node = node.fail
@@ -178,7 +181,10 @@ func (t *Trie) Replace(text string, repl string) string {
 // PrefixSearch returns all patterns that have the key as prefix.
 func (t *Trie) PrefixSearch(key string) []string {
 	node := &t.root
-	for _, v := range key {
+	for i := 0; i < len(key); {
+		v, size := decodeRune(key, i)
+		i += size
+
 		idx := t.index(node.children, v)
 		if idx < 0 {
 			return nil
@@ -212,7 +218,7 @@ func (t *Trie) PrefixSearch(key string) []string {
 		cur := stack[last]
 		stack = stack[:last]
 
-		buf.WriteRune(cur.r)
+		writeRune(&buf, cur.r)
 		if cur.node.isEnd {
 			ret = append(ret, buf.String())
 		}
@@ -222,13 +228,13 @@ func (t *Trie) PrefixSearch(key string) []string {
 				break
 			}
 
-			back := int(cur.depth + int32(utf8.RuneLen(cur.r)) - stack[last-1].depth)
+			back := int(cur.depth + int32(runeLen(cur.r)) - stack[last-1].depth)
 			buf.Truncate(buf.Len() - back)
 			continue
 		}
 
 		for _, child := range cur.node.children {
-			stack = append(stack, trieFrame{child.val, cur.depth + int32(utf8.RuneLen(cur.r)), child.node})
+			stack = append(stack, trieFrame{child.val, cur.depth + int32(runeLen(cur.r)), child.node})
 		}
 	}
 
@@ -242,7 +248,10 @@ func (t *Trie) FuzzySearch(key string) []string {
 	}
 
 	node := &t.root
-	for _, v := range key {
+	for i := 0; i < len(key); {
+		v, size := decodeRune(key, i)
+		i += size
+
 		idx := t.index(node.children, v)
 		for node != &t.root && idx < 0 {
 			node = node.fail
@@ -282,7 +291,7 @@ func (t *Trie) FuzzySearch(key string) []string {
 			cur := stack[last]
 			stack = stack[:last]
 
-			buf.WriteRune(cur.r)
+			writeRune(&buf, cur.r)
 			if cur.node.isEnd {
 				ret = append(ret, buf.String())
 			}
@@ -292,13 +301,13 @@ func (t *Trie) FuzzySearch(key string) []string {
 					break
 				}
 
-				back := int(cur.depth + int32(utf8.RuneLen(cur.r)) - stack[last-1].depth)
+				back := int(cur.depth + int32(runeLen(cur.r)) - stack[last-1].depth)
 				buf.Truncate(buf.Len() - back)
 				continue
 			}
 
 			for _, child := range cur.node.children {
-				stack = append(stack, trieFrame{child.val, cur.depth + int32(utf8.RuneLen(cur.r)), child.node})
+				stack = append(stack, trieFrame{child.val, cur.depth + int32(runeLen(cur.r)), child.node})
 			}
 		}
 
@@ -398,7 +407,29 @@ func decodeRune(s string, i int) (rune, int) {
 	}
 
 	r, size := utf8.DecodeRuneInString(s[i:])
+	if r == utf8.RuneError && size == 1 {
+		// an invalid byte is its own symbol (negative, so never equal to a real
+		// rune, in particular not to a genuine U+FFFD)
+		return -1 - rune(s[i]), 1
+	}
 	return r, size
+}
+
+// runeLen is the number of bytes writeRune emits for r.
+func runeLen(r rune) int {
+	if r < 0 {
+		return 1
+	}
+	return utf8.RuneLen(r)
+}
+
+// writeRune writes r back as it was decoded by decodeRune.
+func writeRune(buf *bytes.Buffer, r rune) {
+	if r < 0 {
+		buf.WriteByte(byte(-1 - r))
+		return
+	}
+	buf.WriteRune(r)
 }
 
 type trieFrame struct {
